@@ -7,6 +7,8 @@ import JsonbModel.Proofs.SelectModes
 import JsonbModel.Spec.PathEval
 import JsonbModel.Proofs.PathFuel
 import JsonbModel.Proofs.SelectRefine9
+import JsonbModel.Proofs.ParserShape
+import JsonbModel.Proofs.SelFuel
 
 namespace Jsonb.Props
 open Jsonb Sel
@@ -139,6 +141,41 @@ theorem C08_terminates (v₀ : JV) (hg : JV.goodTop v₀ = true) (jp : JsonPath)
   obtain ⟨F, hF⟩ := findPositions_exact v₀ hg jp hs hhead
   refine ⟨F, fun fuel hf => ?_⟩
   rcases hF fuel hf with ⟨ps, items, h, _⟩ | ⟨e, h, _⟩ <;> simp [h]
+
+/-! ### The hypotheses above are met by every path the parser accepts, at the fuel the functions use -/
+
+/-- **every accepted path is covered**: whatever `parse_json_path` accepts has the shape the
+refinement theorems are stated for (arithmetic included: it is a supported *error*), and never
+starts with `@` -/
+theorem C08_parser_builds_supported (bs : Bytes) (jp : JsonPath) (h : parseJsonPath bs = .ok jp) :
+    suppPaths jp = true ∧ okPaths jp = true ∧ jp.head? ≠ some .current := parseJsonPath_supp bs jp h
+
+/-- the ASTs are well typed: every index an i32, every integer literal a u64 / i64, names and
+string literals valid UTF-8, arithmetic never nested under a comparison -/
+theorem C08_parser_wellformed (bs : Bytes) (jp : JsonPath) (h : parseJsonPath bs = .ok jp) :
+    PShape.parserShape jp = true ∧ typedPaths jp = true ∧ arithAtLeaves jp = true ∧
+      suppPaths jp = true ∧ okPaths jp = true ∧ jp.head? ≠ some .current := parseJsonPath_wellformed bs jp h
+
+/-- **the fuel the functions are run with is adequate** (quantitative termination): with
+`selFuel` the evaluator model never runs out of fuel, and the denotation evaluated with the same
+number has an answer whenever the model has one -/
+theorem C08_fuel_adequate (v : JV) (hg : JV.goodTop v = true) (jp : JsonPath)
+    (hs : suppPaths jp = true) (hhead : jp.head? ≠ some .current) :
+    findPositions (selFuel (JV.encodeSpec v) jp) (JV.encodeSpec v) none jp ≠ .fuel :=
+  selFuel_adequate_model v hg jp hs hhead
+
+/-- **end to end**: for every text the parser accepts and every good document, evaluation at
+the functions' own fuel either finds positions representing exactly the items the path denotes
+(the denotation evaluated at the same fuel), or answers `Err` on a path that denotes nothing at
+any fuel -/
+theorem C08_end_to_end (bs : Bytes) (jp : JsonPath) (hp : parseJsonPath bs = .ok jp) (v : JV) (hg : JV.goodTop v = true) :
+    (∃ ps items, findPositions (selFuel (JV.encodeSpec v) jp) (JV.encodeSpec v) none jp = .ok ps ∧
+        Sel.RepL (JV.encodeSpec v) ps items ∧
+        Spec.evalPaths (selFuel (JV.encodeSpec v) jp) v none jp = some items) ∨
+    (∃ e, findPositions (selFuel (JV.encodeSpec v) jp) (JV.encodeSpec v) none jp = .err e ∧
+        ∀ f, Spec.evalPaths f v none jp = none) :=
+  let ⟨hs, _, hh⟩ := parseJsonPath_supp bs jp hp
+  selFuel_exact v hg jp hs hh
 
 /-- the scalar-root defect repaired in /repo: `$ > 1` on the document `5` is true -/
 example : (predicateMatch [.predicate (.binaryOp .gt (.paths [.root]) (.value (.num (.uint 1))))]
